@@ -170,21 +170,18 @@ below the offset — the Solexa scores -5 to -1, written ; to ? — wraps around
 					}
 					stack = append(stack, nd)
 					as, ok := nd.(*ast.AssignStmt)
-					if !ok || as.Tok != token.SUB_ASSIGN || len(as.Lhs) != 1 {
-						return true
-					}
-					ix, ok := ast.Unparen(as.Lhs[0]).(*ast.IndexExpr)
 					if !ok {
 						return true
 					}
-					if t := info.TypeOf(ix); t == nil || t.Underlying() != types.Typ[types.Uint8] && t.String() != "byte" && t.String() != "uint8" {
+					sb := qsSubtraction(info, as, stack)
+					if sb == nil {
 						return true
 					}
-					off := rootObj(info, as.Rhs[0])
-					if _, isC := constInt(info, as.Rhs[0]); isC || off == nil {
+					off := rootObj(info, sb.off)
+					if _, isC := constInt(info, sb.off); isC || off == nil {
 						return true
 					}
-					arr := rootObj(info, ix.X)
+					arr, sym := sb.arr, sb.sym
 					n++
 					key := fmt.Sprintf("%s:shift#%d:not-below-the-offset", funcName(p, fd), n)
 					guarded := false
@@ -196,7 +193,7 @@ below the offset — the Solexa scores -5 to -1, written ; to ? — wraps around
 						hasArr, hasOff := false, false
 						ast.Inspect(is.Cond, func(m ast.Node) bool {
 							if id, ok := m.(*ast.Ident); ok {
-								if info.ObjectOf(id) == arr {
+								if o := info.ObjectOf(id); o == arr || sym != nil && o == sym {
 									hasArr = true
 								}
 								if info.ObjectOf(id) == off {
@@ -219,4 +216,54 @@ below the offset — the Solexa scores -5 to -1, written ; to ? — wraps around
 			})
 		},
 	})
+}
+
+// qsSub: a statement that takes an offset away from an element of a byte slice — q[i] -= off, q[i] = q[i] - off, or q[i] = v - off with v the value variable of the enclosing range over q.
+type qsSub struct {
+	arr, sym types.Object
+	off      ast.Expr
+}
+
+func qsSubtraction(info *types.Info, as *ast.AssignStmt, stack []ast.Node) *qsSub {
+	if len(as.Lhs) != 1 || len(as.Rhs) != 1 {
+		return nil
+	}
+	ix, ok := ast.Unparen(as.Lhs[0]).(*ast.IndexExpr)
+	if !ok {
+		return nil
+	}
+	if t := info.TypeOf(ix); t == nil {
+		return nil
+	} else if b, ok := t.Underlying().(*types.Basic); !ok || b.Kind() != types.Uint8 {
+		return nil
+	}
+	arr := rootObj(info, ix.X)
+	if arr == nil {
+		return nil
+	}
+	switch as.Tok {
+	case token.SUB_ASSIGN:
+		return &qsSub{arr: arr, off: as.Rhs[0]}
+	case token.ASSIGN:
+		b, ok := ast.Unparen(as.Rhs[0]).(*ast.BinaryExpr)
+		if !ok || b.Op != token.SUB {
+			return nil
+		}
+		switch x := ast.Unparen(b.X).(type) {
+		case *ast.IndexExpr:
+			if rootObj(info, x.X) == arr {
+				return &qsSub{arr: arr, off: b.Y}
+			}
+		case *ast.Ident:
+			o := info.ObjectOf(x)
+			for k := len(stack) - 1; k >= 0; k-- {
+				if rs, ok := stack[k].(*ast.RangeStmt); ok && rs.Value != nil {
+					if v, ok := rs.Value.(*ast.Ident); ok && info.ObjectOf(v) == o && rootObj(info, rs.X) == arr {
+						return &qsSub{arr: arr, sym: o, off: b.Y}
+					}
+				}
+			}
+		}
+	}
+	return nil
 }
